@@ -611,6 +611,8 @@ func (w *hostWorld) doForm2(p vhlib.ParsedLine) string {
 	}
 	tr.Close()
 	time.Sleep(20 * time.Millisecond)
+	// every accepted formation spends one of the host wallet's few confirmed outputs: continue on a fresh host
+	w.poisoned = true
 	return fmt.Sprintf("res=accept %s", snapObs(before, w.snapshot()))
 }
 
